@@ -63,4 +63,11 @@ theorem rdf_value_line_markers :
     rdfReadMeta (splitLinesKeep (rdfMetaChunk (sL "k", sL "a\n$DTYPE z\nb"))) = [(sL "k", sL "a"), (sL "z", sL "b")] := by
   decide +kernel
 
+/-- known finding `C11/meta/SDF/key-contains-escape-literal`: the unrestricted escape round trip is false -/
+theorem key_escape_full_false : ¬ KeyEscapeFull := by
+  intro h
+  have := h (sL "a&gt;b")
+  revert this
+  decide +kernel
+
 end ChythonModel.Findings.C11
